@@ -222,6 +222,33 @@ func (c *Ctx) derefUses(v ssa.Value) []ssa.Instruction {
 			case *ssa.ChangeType:
 				walk(u)
 			case *ssa.MakeInterface:
+				// a nil *T in an ast.Node is not a nil node: ast.Inspect / ast.Walk visit it and read its fields
+				if _, isPtr := x.Type().Underlying().(*types.Pointer); isPtr && u.X == x {
+					seenI := map[ssa.Value]bool{}
+					var asNode func(iv ssa.Value)
+					asNode = func(iv ssa.Value) {
+						if seenI[iv] || iv.Referrers() == nil {
+							return
+						}
+						seenI[iv] = true
+						for _, r2 := range *iv.Referrers() {
+							switch y := r2.(type) {
+							case *ssa.Phi:
+								asNode(y)
+							case *ssa.ChangeInterface:
+								asNode(y)
+							case ssa.CallInstruction:
+								n := c.P.calleeName(y.Common())
+								args := y.Common().Args
+								if (n == "go/ast.Inspect" && len(args) == 2 && args[0] == iv) || (n == "go/ast.Walk" && len(args) == 2 && args[1] == iv) {
+									out = append(out, y)
+									c.derefVia[y] = x
+								}
+							}
+						}
+					}
+					asNode(u)
+				}
 			}
 		}
 	}
